@@ -516,6 +516,24 @@ Proof.
   induction ps as [|q ps IH]; cbn [map flat_map]; auto. rewrite IH, proc_uses_rent. now rewrite idents_rent.
 Qed.
 
+Lemma provider_index_rent ps x : provider_index (map rent_proc ps) x = provider_index ps x.
+Proof.
+  unfold provider_index. generalize 0 (@None nat). induction ps as [|q ps IH]; intros n o; cbn [map]; auto.
+  cbn [pr_providers rent_proc]. rewrite idents_rent. apply IH.
+Qed.
+Lemma proc_deps_rent ps q : proc_deps (map rent_proc ps) (rent_proc q) = proc_deps ps q.
+Proof.
+  unfold proc_deps. rewrite proc_uses_rent. induction (proc_uses q) as [|fn l IH]; cbn [map flat_map]; auto.
+  change (ident (rn fn)) with (ident fn). now rewrite provider_index_rent, IH.
+Qed.
+Lemma deps_acyclic_rent ps : deps_acyclic (map rent_proc ps) = deps_acyclic ps.
+Proof.
+  unfold deps_acyclic. rewrite map_length, map_map.
+  assert (E : map (fun x => proc_deps (map rent_proc ps) (rent_proc x)) ps = map (proc_deps ps) ps)
+    by (apply map_ext; intros; apply proc_deps_rent).
+  now rewrite E.
+Qed.
+
 Definition rent_tn (m : list (string * name)) : list (string * name) := map (fun kv => (fst kv, rn (snd kv))) m.
 Lemma alookup_rent_tn x m : alookup x (rent_tn m) = option_map rn (alookup x m).
 Proof. unfold rent_tn. induction m as [|[k v] m IH]; cbn; auto. destruct (String.eqb x k); auto. Qed.
@@ -604,7 +622,7 @@ Theorem typing_equivariant_types_inj teq rt rl p :
   (forall a b, rt a = rt b -> a = b) -> (forall a b, rl a = rl b -> a = b) -> teq_equivariant teq rt rl ->
   ProgOK teq p -> ProgOK teq (rent_program rt rl p).
 Proof.
-  intros Ht Hl Heq [pe [[ET [EF [EP EA]]] [SD NF [Sg [SO [FO PO]]] NA TA NP DJ U1 U2 U3]]].
+  intros Ht Hl Heq [pe [[ET [EF [EP EA]]] [SD NF [Sg [SO [FO PO]]] NA TA NP DJ U1 U2 U3 AC]]].
   exists (rent_program rt rl pe). split.
   - rewrite !rent_program_eq. repeat split; cbn [p_types p_funs p_procs p_assumed].
     + now rewrite ET.
@@ -625,6 +643,7 @@ Proof.
     + now rewrite uses_rent.
     + rewrite uses_rent, all_providers_rent, idents_rent. exact U2.
     + rewrite uses_rent, idents_rent. exact U3.
+    + now rewrite deps_acyclic_rent.
 Qed.
 
 (* ---------------------------------------------------------------- the converse, for bijections *)
